@@ -459,7 +459,8 @@ class ReprTable:
             if c is None:
                 raise Unrecognised("from_repr(%d) is neither None nor Some(variant): %s" % (k, H.brief(v, 80)), v)
             self.rows.append((k, c, {"body": v, "normalised": True}))
-        self.wild_none = all(is_none(v) or any(k == r[0] for r in self.rows) for k, v in others)
+        row_keys = set(r[0] for r in self.rows)
+        self.wild_none = all(is_none(v) or k in row_keys for k, v in others)
         # a value that is no constant of the function but yields a variant was added to rows above, so C06's
         # extra-value rule sees it
 
